@@ -47,6 +47,13 @@ LEVEL_TEXT = (
     "Not decided: continuity on concrete meshes, ElementGlobal (C1 / "
     "non-conforming) elements, ElementTriN3 (run-time index swaps in "
     "gbasis), second-order triangle meshes loaded unsorted.")
+LEVEL_TEXT += (
+    " Added after the seeding phase: triangle meshes with sorting switched "
+    "off are in scope for elements with at most one DOF per facet (both "
+    "vertex orders enumerated; orient() interpreted with the real "
+    "reference-domain class); (R2) no library operation returns a mesh "
+    "built with a literal sort_t=False unless that is what the operation "
+    "is for (MeshSimplex.oriented).")
 LEVEL_NOTE = ("Trusted: the covariant / contravariant Piola maps of C09-R5 "
               "and the shared numbering of C04. The H(curl) sign is not "
               "hard-coded: orient() is interpreted for every ranking.")
